@@ -2,6 +2,7 @@
   C16 — helper lemmas and the invariants of `drain` / `gather` (core Lean only).
 -/
 import Ipv8.C16.Model
+import Ipv8.C16.Source
 
 namespace Ipv8.C16
 open Ipv8
@@ -1326,6 +1327,15 @@ theorem unserialize_error_iff (tr : Tree) (s : Bytes) :
   simp only []
   rw [parse_ok_iff]
   cases h : (s.length % (Gen.chunkBase + C.sigLen) == 0) <;> simp_all
+
+
+theorem lookup_of_hasId {els : List Token} {h : Bytes} (hh : hasId C els h = true) :
+    ∃ x, lookup C els h = some x := by
+  have := lookup_isSome C els h
+  rw [hh] at this
+  cases hl : lookup C els h with
+  | none => simp [hl] at this
+  | some x => exact ⟨x, rfl⟩
 
 
 end Ipv8.C16
